@@ -625,8 +625,19 @@ def encoder_images(ctx):
             if nec and f.get("ty", 0) in (0, 3) and (recipe or rng.random() < 0.7):
                 f["blend"] = dict(f.get("blend", {}), mode=rng.choice([2, 3]), alpha=0)
         plans.append(("layers+filters", pl.plan_line(img, frames)))
+    # frames with patch dictionaries (sources: reference-only frames, also larger than the canvas), with
+    # and without Gabor / EPF on the patched frame: a cropped render still needs the whole source rectangle
+    from props import c05
+    for i in range(6 if ctx.quick else 80):
+        img, frames, _tags = c05.gen_patch_image(rng)
+        for f in frames:
+            if f.get("patches") and rng.random() < 0.5:
+                f["gab"] = True
+                f["epf"] = rng.choice([0, 1, 2])
+        plans.append(("patches", pl.plan_line(img, frames)))
     out = []
     for k, (kind, line, cs) in enumerate(fl.encode(plans)):
+        ctx.count("encoder-images:" + kind)
         path = os.path.join(d, f"{k}.jxl")
         open(path, "wb").write(cs)
         out.append((path, 12 if ctx.quick else 40, line))
